@@ -1439,7 +1439,16 @@ func (sc *serverConn) skipFields(b []byte, fields int, last bool) ([]byte, int, 
 // that the stream error stays the stream's. If the block goes on in
 // CONTINUATION frames, closeStream hands what is left to sc.discard.
 func (sc *serverConn) rejectBlock(strm *Stream, fr *FrameHeader, b []byte, reason error) error {
-	carry, fields, err := sc.skipFields(b, strm.blockFields+1, fr.Flags().Has(FlagEndHeaders))
+	// One field of the block has been decoded beyond what the stream has
+	// counted: the one that gave the request away.
+	return sc.rejectBlockFrom(strm, fr, b, strm.blockFields+1, reason)
+}
+
+// rejectBlockFrom is rejectBlock for a caller that knows how many fields of the
+// block have been decoded before b: none, when the frame is turned away before
+// any of its fields has been looked at.
+func (sc *serverConn) rejectBlockFrom(strm *Stream, fr *FrameHeader, b []byte, decoded int, reason error) error {
+	carry, fields, err := sc.skipFields(b, decoded, fr.Flags().Has(FlagEndHeaders))
 	if err != nil {
 		return err
 	}
@@ -1512,9 +1521,16 @@ func (sc *serverConn) handleHeaderFrame(strm *Stream, fr *FrameHeader) error {
 	// headers, which is the nearest thing fasthttp's request has to a place
 	// for them.
 	// https://httpwg.org/specs/rfc7540.html#rfc.section.8.1
+	//
+	// Two things can be wrong with the frame itself, and both are the stream's
+	// error and nobody else's (RFC 7540 8.1, 5.3.1). The verdict waits until the
+	// block has been taken in hand below: the stream is reset, but its block is
+	// still decoded, because the compression context is the connection's.
+	var malformed error
+
 	if strm.headersFinished && fr.Type() == FrameHeaders {
 		if !fr.Flags().Has(FlagEndStream) {
-			return NewGoAwayError(ProtocolError, "stream not open")
+			malformed = NewResetStreamError(ProtocolError, "trailers that do not end the stream")
 		}
 
 		// Like any header block the trailers may go on in CONTINUATION frames.
@@ -1524,7 +1540,7 @@ func (sc *serverConn) handleHeaderFrame(strm *Stream, fr *FrameHeader) error {
 	}
 
 	if headerFrame, ok := fr.Body().(*Headers); ok && headerFrame.Stream() == strm.ID() {
-		return NewGoAwayError(ProtocolError, "stream that depends on itself")
+		malformed = NewResetStreamError(ProtocolError, "stream that depends on itself")
 	}
 
 	// Only a HEADERS or PUSH_PROMISE frame opens a header block. How far into the
@@ -1543,6 +1559,10 @@ func (sc *serverConn) handleHeaderFrame(strm *Stream, fr *FrameHeader) error {
 	// capacity across frames instead of allocating a header block every time.
 	b := append(strm.previousHeaderBytes, fr.Body().(FrameWithHeaders).Headers()...)
 	strm.previousHeaderBytes = b[:0]
+
+	if malformed != nil {
+		return sc.rejectBlockFrom(strm, fr, b, strm.blockFields, malformed)
+	}
 
 	hf := AcquireHeaderField()
 	defer ReleaseHeaderField(hf)
